@@ -148,6 +148,8 @@ def rational_quadratic_spline(
         root = (2 * c) / (-b - torch.sqrt(discriminant))
         # root = (- b + torch.sqrt(discriminant)) / (2 * a)
         outputs = root * input_bin_widths + input_cumwidths
+        # Rounding must not push the result out of the interval.
+        outputs = torch.clamp(outputs, left, right)
 
         theta_one_minus_theta = root * (1 - root)
         denominator = input_delta + (
@@ -174,6 +176,8 @@ def rational_quadratic_spline(
             * theta_one_minus_theta
         )
         outputs = input_cumheights + numerator / denominator
+        # Rounding must not push the result out of the interval.
+        outputs = torch.clamp(outputs, bottom, top)
 
         derivative_numerator = input_delta.pow(2) * (
             input_derivatives_plus_one * theta.pow(2)
